@@ -1,7 +1,7 @@
 (* Layer I: src/series/data/index.rs and src/series/data/index/create.rs *)
 From Coq Require Import List NArith Bool Arith.
 From Coq Require Import Strings.Byte.
-Require Import BS.Bytes BS.Common BS.FS BS.Meta BS.Header.
+Require Import BS.Bytes BS.Common BS.Api BS.FS BS.Meta BS.Header.
 Require BSgen.Consts.
 Import ListNotations.
 Close Scope N_scope. Open Scope nat_scope.
